@@ -73,16 +73,16 @@ PROPS = {
     'C18': dict(level='exploration', budget={'quick': Q, 'thorough': T}, groups=A((5, 3, 1)) + B((4, 2, 1)),
                 rule='static part: one case = (C type int32/int64/uint32/uint64, run-time epsilon 1..4096, sorted C array, simulated machine/team/schedule); pgm_index_<t>_create/search judged by the C01+C02 oracles with that epsilon. '
                      'non-trivial and distinct = distinct (type x epsilon x motif signature x n) with >= 2 segments and both present and absent queries, plus one per distinct trace of a team-built index. '
-                     'dynamic part: one case = a history of create/create_empty/insert_or_assign/erase/find/begin/lower_bound/iterator_next/iterator_destroy/size calls on dynamic_pgm_index_<int32|int64|uint32> judged against std::map, iterators held across updates and destroyed later, the handle destroyed and re-created inside a history, a second (bystander) container alive all along and compared at the end; static part also: destroy + create a different index at the same address (or keep both alive) and repeat the last query first; non-trivial = distinct trace hashes of histories with >= 2 updates',
+                     'dynamic part: one case = a history of create/create_empty/insert_or_assign/erase/find/begin/lower_bound/iterator_next/iterator_destroy/size calls on dynamic_pgm_index_<int32|int64|uint32> judged against std::map, iterators held across updates and destroyed later, exhausted iterators polled once more, the handle destroyed and re-created inside a history, a second (bystander) container alive all along and compared at the end; static part also: destroy + create a different index at the same address (or keep both alive) and repeat the last query first; non-trivial = distinct trace hashes of histories with >= 2 updates',
                 assumptions=COMMON_ASSUME + ['dynamic_pgm_index_uint64 is declared in cpgm.h but not defined in cpgm.cpp, so it cannot be linked and is not exercised', 'c-interface/cpgm.cpp is compiled from the working tree into the engine']),
     'C05': dict(level='exploration', budget={'quick': Q, 'thorough': T}, groups=B(),
-                rule='one case = (DynamicPGMIndex<K,V,PGMType> configuration, base, buffer_level, index_level, bulk-load, history of 1..400 (quick) / ..5000 (thorough) operations over a small key domain with unique values (incl. copies of advanced iterators, values passed by reference into the container, a second container on the same thread, bulk-loads through vector/deque iterators and raw pointers to std::pair or plain structs), invalid operations injected at random points, simulated machine/team/schedule for indexed levels >= 2^15 entries)' + '; after every operation find/count/lower_bound are compared with std::map, with sweeps over the key domain; non-trivial and distinct = distinct trace hashes of histories with >= 2 updates and (>= 2 non-empty levels or an erase-then-reinsert)',
+                rule='one case = (DynamicPGMIndex<K,V,PGMType> configuration, base, buffer_level, index_level, bulk-load, history of 1..400 (quick) / ..5000 (thorough) operations over a small key domain with unique values (incl. copies of advanced iterators, values passed by reference into the container or as temporaries, snapshot copies judged by the same oracles, a second container on the same thread, bulk-loads through vector/deque iterators and raw pointers to std::pair or plain structs), invalid operations injected at random points, simulated machine/team/schedule for indexed levels >= 2^15 entries)' + '; after every operation find/count/lower_bound are compared with std::map, with sweeps over the key domain; non-trivial and distinct = distinct trace hashes of histories with >= 2 updates and (>= 2 non-empty levels or an erase-then-reinsert)',
                 assumptions=COMMON_ASSUME),
     'C06': dict(level='exploration', budget={'quick': Q, 'thorough': T}, groups=B(),
-                rule='one case = (DynamicPGMIndex<K,V,PGMType> configuration, base, buffer_level, index_level, bulk-load, history of 1..400 (quick) / ..5000 (thorough) operations over a small key domain with unique values (incl. copies of advanced iterators, values passed by reference into the container, a second container on the same thread, bulk-loads through vector/deque iterators and raw pointers to std::pair or plain structs), invalid operations injected at random points, simulated machine/team/schedule for indexed levels >= 2^15 entries)' + '; traversal from begin() and from lower_bound results (bounded by the number of live keys), range(lo,hi) (exact length and content), size() and empty() are compared with std::map; non-trivial as C05',
+                rule='one case = (DynamicPGMIndex<K,V,PGMType> configuration, base, buffer_level, index_level, bulk-load, history of 1..400 (quick) / ..5000 (thorough) operations over a small key domain with unique values (incl. copies of advanced iterators, values passed by reference into the container or as temporaries, snapshot copies judged by the same oracles, a second container on the same thread, bulk-loads through vector/deque iterators and raw pointers to std::pair or plain structs), invalid operations injected at random points, simulated machine/team/schedule for indexed levels >= 2^15 entries)' + '; traversal from begin() and from lower_bound results (bounded by the number of live keys), range(lo,hi) (exact length and content), size() and empty() are compared with std::map; non-trivial as C05',
                 assumptions=COMMON_ASSUME),
     'C15': dict(level='exploration', budget={'quick': Q, 'thorough': T}, groups=B(),
-                rule='one case = (DynamicPGMIndex<K,V,PGMType> configuration, base, buffer_level, index_level, bulk-load, history of 1..400 (quick) / ..5000 (thorough) operations over a small key domain with unique values (incl. copies of advanced iterators, values passed by reference into the container, a second container on the same thread, bulk-loads through vector/deque iterators and raw pointers to std::pair or plain structs), invalid operations injected at random points, simulated machine/team/schedule for indexed levels >= 2^15 entries)' + '; after every insert_or_assign/erase the private layout is read through hook H3 and checked: levels strictly sorted, capacities from an independent formula, no data beyond used levels, every non-empty indexed level owns an index bit-identical to a freshly built one (property-level equivalent when chunked), emptied levels own no index; scale slots: base 2 walked through 2^18-1 resident entries (> 16 non-empty levels), and a level of capacity 2^24 bulk-loaded to capacity - need - delta (delta -2..+1, need from a sizes-only reference model of the cascade rule) with the sizes judged after every one of 0.26-1.1 M inserts; non-trivial as C05',
+                rule='one case = (DynamicPGMIndex<K,V,PGMType> configuration, base, buffer_level, index_level, bulk-load, history of 1..400 (quick) / ..5000 (thorough) operations over a small key domain with unique values (incl. copies of advanced iterators, values passed by reference into the container or as temporaries, snapshot copies judged by the same oracles, a second container on the same thread, bulk-loads through vector/deque iterators and raw pointers to std::pair or plain structs), invalid operations injected at random points, simulated machine/team/schedule for indexed levels >= 2^15 entries)' + '; after every insert_or_assign/erase the private layout is read through hook H3 and checked: levels strictly sorted, capacities from an independent formula, no data beyond used levels, every non-empty indexed level owns an index bit-identical to a freshly built one (property-level equivalent when chunked), emptied levels own no index; scale slots: base 2 walked through 2^18-1 resident entries (> 16 non-empty levels), and a level of capacity 2^24 bulk-loaded to capacity - need - delta (delta -2..+1, need from a sizes-only reference model of the cascade rule) with the sizes judged after every one of 0.26-1.1 M inserts; non-trivial as C05',
                 assumptions=COMMON_ASSUME + ['hook H3 (friend accessor) only reads']),
     'C19': dict(level='exploration', budget={'quick': Q, 'thorough': T},
                 groups=[{'engine': 'buildsim', 'flavour': 'asan', 'weight': 6}, {'engine': 'buildsim', 'flavour': 'plain', 'weight': 4},
@@ -116,6 +116,6 @@ PROPS = {
                 groups=[{'engine': 'readsim', 'flavour': 'tsan', 'weight': 9}, {'engine': 'readsim', 'flavour': 'plain', 'weight': 4}, {'engine': 'readsim', 'flavour': 'asan', 'weight': 3}],
                 rule='one case = (class and configuration of the shared object: PGMIndex, Compressed, Bucketing, EliasFano, Mapped (reopened file), Multidimensional, Dynamic (updated single-threaded beforehand); 2..16 reader tasks with seeded query scripts; preemption probability; schedule seed). '
                      'readers are real threads of which exactly one runs, handed over by the seeded baton scheduler at operation, iterator-step and in-query (hook H2) yield points; the scheduler is invisible to ThreadSanitizer, so two conflicting accesses by different readers are reported whenever both occur in the run. '
-                     'oracles: zero TSan reports; every call returns what it returns when run alone (readers also copy a shared, already advanced iterator and walk their copies; warm runs: a solo pass on the shared object before the readers; cold runs, 60 %: a solo pass on an identically constructed twin, so that the concurrent readers are the first callers of any query operation on the shared object) and a second solo pass afterwards agrees. non-trivial and distinct = distinct schedules (decision hashes) in which >= 2 readers were each preempted mid-script',
+                     'oracles: zero TSan reports; every call returns what it returns when run alone (readers also call size()/empty() and copy a shared, already advanced iterator and walk their copies; warm runs: a solo pass on the shared object before the readers; cold runs, 60 %: a solo pass on an identically constructed twin, so that the concurrent readers are the first callers of any query operation on the shared object) and a second solo pass afterwards agrees. non-trivial and distinct = distinct schedules (decision hashes) in which >= 2 readers were each preempted mid-script',
                 assumptions=COMMON_ASSUME + ['no instruction-level interleaving: races are found by happens-before analysis over serial executions, their effects (e.g. a lost update) are not explored']),
 }
